@@ -171,7 +171,8 @@ class _VersionGlobMatch(GenericEquality, restriction.base):
 
     __slots__ = ("rev", "ver")
 
-    __attr_comparison__ = ("ver", "rev")
+    # without __class__ a _VersionMatch (which has ver and rev too) compares equal
+    __attr_comparison__ = ("__class__", "ver", "rev")
 
     type = restriction.value_type
     attr = "fullver"
